@@ -60,7 +60,9 @@ func hasDelimiterPayload(s string) bool {
 func specNontrivialC05(a anySpec) bool {
 	chkT := func(ts *model.TimeSpec) bool { return ts != nil && (ts.Off != 0 || ts.Nsec != 0) }
 	chkP := func(p *model.PredSpec) bool { return p != nil && (hasDelimiterPayload(p.ID) || chkT(p.Anchor)) }
-	chkN := func(n *model.NodeSpec) bool { return n != nil && (hasDelimiterPayload(n.ID) || hasDelimiterPayload(n.Type)) }
+	chkN := func(n *model.NodeSpec) bool {
+		return n != nil && (hasDelimiterPayload(n.ID) || hasDelimiterPayload(n.Type))
+	}
 	chkL := func(l *model.LitSpec) bool {
 		if l == nil {
 			return false
